@@ -41,13 +41,13 @@ def hexOfStr (s : String) : String :=
   if s.isEmpty then "-" else
   String.ofList (s.toList.foldr (fun c acc => Nat.digitChar (c.toNat / 16 % 16) :: Nat.digitChar (c.toNat % 16) :: acc) [])
 
-/-! ### numbers: printing (strconv.AppendFloat(f, 'f', -1, 64) for values whose exact decimal expansion has
-    ≤ 15 significant digits — then the shortest round-tripping decimal IS the exact expansion) and
-    parsing (strconv.ParseFloat(s, 32): correctly rounded to float32, error on overflow) -/
+/-! ### numbers: printing (strconv.AppendFloat(f, 'f', -1, 64): shortest round-tripping decimal, computed with
+    exact rational arithmetic) and parsing (strconv.ParseFloat(s, 32): correctly rounded to float32, error on overflow) -/
 
 def stripTrailingZeros (cs : List Char) : List Char := (cs.reverse.dropWhile (· == '0')).reverse
 
-def printF (b : S) : String :=
+/-- exact decimal expansion (kept for reference / debugging) -/
+def printExact (b : S) : String :=
   let bits := b.toNat
   let sign := bits / 2 ^ 63
   let ex : Nat := bits / 2 ^ 52 % 2048
@@ -63,6 +63,68 @@ def printF (b : S) : String :=
   let ip := ds.take (ds.length - k)
   let fp := stripTrailingZeros (ds.drop (ds.length - k))
   pre ++ String.ofList ip ++ (if fp.isEmpty then "" else "." ++ String.ofList fp)
+
+/-- a non-negative rational as numerator / denominator -/
+abbrev Q := Nat × Nat
+def qlt (a b : Q) : Bool := a.1 * b.2 < b.1 * a.2
+def qle (a b : Q) : Bool := a.1 * b.2 ≤ b.1 * a.2
+/-- |a - b| as a rational -/
+def qdist (a b : Q) : Q := (if a.1 * b.2 ≥ b.1 * a.2 then a.1 * b.2 - b.1 * a.2 else b.1 * a.2 - a.1 * b.2, a.2 * b.2)
+/-- D · 10^q -/
+def dec (d : Nat) (q : Int) : Q := if q ≥ 0 then (d * 10 ^ q.toNat, 1) else (d, 10 ^ (-q).toNat)
+
+/-- `strconv.AppendFloat(f, 'f', -1, 64)`: the shortest decimal that parses back to the same float64
+    (closest to the value among the shortest), in positional notation -/
+def printF (b : S) : String :=
+  let bits := b.toNat
+  let sign := bits / 2 ^ 63
+  let ex : Nat := bits / 2 ^ 52 % 2048
+  let man : Nat := bits % 2 ^ 52
+  let pre := if sign == 1 then "-" else ""
+  if ex == 2047 then (if man == 0 then (if sign == 1 then "-Inf" else "+Inf") else "NaN") else
+  let (m, e) : Nat × Int := if ex == 0 then (man, -1074) else (man + 2 ^ 52, (ex : Int) - 1075)
+  if m == 0 then pre ++ "0" else
+  -- value and rounding interval in units of 2^(e-2)
+  let boundary := man == 0 && ex > 1
+  let unit : Int := e - 2
+  let mk (k : Nat) : Q := if unit ≥ 0 then (k * 2 ^ unit.toNat, 1) else (k, 2 ^ (-unit).toNat)
+  let x := mk (4 * m)
+  let lo := mk (if boundary then 4 * m - 1 else 4 * m - 2)
+  let hi := mk (4 * m + 2)
+  let closed := m % 2 == 0
+  let inside (d : Q) : Bool := if closed then qle lo d && qle d hi else qlt lo d && qlt d hi
+  -- p10 with 10^p10 ≤ x < 10^(p10+1)
+  let p0 : Int := ((toString (x.1 / x.2)).length : Int) - 1
+  let p10 : Int := if x.1 ≥ x.2 then p0 else
+    (List.range 400).foldl (fun (p : Int) _ => if qlt x (dec 1 p) then p - 1 else p) (-1)
+  let rec search (fuel : Nat) (n : Nat) : Nat × Int :=
+    match fuel with
+    | 0 => (0, 0)
+    | fuel + 1 =>
+      let q : Int := p10 - (n : Int) + 1
+      -- D_down = floor(x / 10^q)
+      let dd : Nat := if q ≥ 0 then x.1 / (x.2 * 10 ^ q.toNat) else x.1 * 10 ^ (-q).toNat / x.2
+      let du := dd + 1
+      let okd := dd > 0 && inside (dec dd q)
+      let oku := inside (dec du q)
+      if okd && oku then
+        let a := qdist x (dec dd q); let c := qdist x (dec du q)
+        if qlt c a then (du, q) else if qlt a c then (dd, q) else (if dd % 2 == 0 then (dd, q) else (du, q))
+      else if okd then (dd, q) else if oku then (du, q) else search fuel (n + 1)
+  let (d0, q0) := search 20 1
+  -- strip trailing zeros of the digit string
+  let rec strip (fuel : Nat) (d : Nat) (q : Int) : Nat × Int :=
+    match fuel with
+    | 0 => (d, q)
+    | fuel + 1 => if d % 10 == 0 && d > 0 then strip fuel (d / 10) (q + 1) else (d, q)
+  let (d, q) := strip 400 d0 q0
+  let ds := (toString d).toList
+  if q ≥ 0 then pre ++ String.ofList ds ++ String.ofList (List.replicate q.toNat '0') else
+  let k := (-q).toNat
+  let ds := if ds.length ≤ k then List.replicate (k + 1 - ds.length) '0' ++ ds else ds
+  let ip := ds.take (ds.length - k)
+  let fp := ds.drop (ds.length - k)
+  pre ++ String.ofList ip ++ "." ++ String.ofList fp
 
 def isDigit (c : Char) : Bool := '0' ≤ c && c ≤ '9'
 
